@@ -25,6 +25,7 @@ import (
 	"github.com/olric-data/olric/internal/cluster/partitions"
 	"github.com/olric-data/olric/internal/discovery"
 	"github.com/olric-data/olric/internal/protocol"
+	"github.com/olric-data/olric/internal/verifhook"
 	"github.com/olric-data/olric/pkg/storage"
 	"github.com/vmihailenco/msgpack/v5"
 )
@@ -96,6 +97,7 @@ func (f *fragment) Move(part *partitions.Partition, name string, owners []discov
 	if err != nil {
 		return err
 	}
+	verifhook.At("move.exported", f.service.rt.This().String(), fp.Name, part.ID(), part.Kind().String())
 
 	for _, owner := range owners {
 		if f.service.config.EnableClusterEventsChannel {
@@ -123,6 +125,7 @@ func (f *fragment) Move(part *partitions.Partition, name string, owners []discov
 		if err := cmd.Err(); err != nil {
 			return err
 		}
+		verifhook.At("move.sent", f.service.rt.This().String(), fp.Name, part.ID(), part.Kind().String(), owner.String())
 	}
 
 	return i.Drop(index)
